@@ -805,6 +805,14 @@ func (r *RIB) DeleteEntry(ni string, op *spb.AFTOperation) ([]*OpResult, []*OpRe
 		return nil, nil, fmt.Errorf("invalid network instance, %s", ni)
 	}
 
+	// A delete checks that nothing references the entry before it removes it,
+	// and AddEntry checks an entry's references before it installs it. The two
+	// must not interleave (two sessions can be in doModify at the same time
+	// around a change of primary), or an entry is removed from under a referrer
+	// that is being installed, and the reference counts no longer match the RIB.
+	r.pendMu.add.Lock()
+	defer r.pendMu.add.Unlock()
+
 	var (
 		oks, fails   []*OpResult
 		removed      bool
